@@ -11,7 +11,35 @@ func init() {
 	})
 }
 
+// genC02Burst: a gauge that is updated a great many times between two report
+// passes (a hot loop; nothing in the statement bounds the number of updates).
+// The counts are the ones at which a narrow counter of updates comes round
+// again. The burst runs while the main task is the only one alive, so it costs
+// no scheduling decisions; with an interval of 0 the root's Close is the one
+// report pass.
+func genC02Burst(g *Gen, tier string) *Program {
+	p := &Program{Prop: "C02"}
+	c := &p.Cfg
+	baseCfg(g, c)
+	c.IntervalNs = 0
+	c.Faults.SlowPct = 0
+	g.schedule(c, 0)
+	n := pick(g, 1<<16, 1<<16, 1<<17, 1<<16-1, 1<<16+1, 1<<8, 1<<15, 3<<16)
+	p.Prelude = append(p.Prelude, Op{K: "gauge", S: 0, M: 1, Name: "burst"})
+	if g.Bool(50) {
+		p.Prelude = append(p.Prelude, Op{K: "upd", M: 1, F: f64bits(7.5)})
+		n--
+	}
+	p.Prelude = append(p.Prelude, Op{K: "upd", M: 1, N: n, F: f64bits(1001.25)})
+	p.Tasks = [][]Op{{{K: "yield"}}}
+	settleEpilogue(g, p)
+	return p
+}
+
 func genC02(g *Gen, tier string) *Program {
+	if g.Intn(map[string]int{"quick": 600, "thorough": 300}[tier]) == 0 {
+		return genC02Burst(g, tier)
+	}
 	p := &Program{Prop: "C02"}
 	baseCfg(g, &p.Cfg)
 	maxOps := 9
